@@ -53,6 +53,18 @@ def onlyDisabledB (env : List Entry) (l : List PTok) : Bool :=
     | .id n => env.all (fun e => e.m.name != n || e.disabled)
     | _ => true)
 
+/-- `AllKept`, decided: no token of the list starts an operation where it stands (the list expands to itself) -/
+def allKeptB (env : List Entry) : List PTok → Bool
+  | [] => true
+  | t :: rest => keptB env t rest && allKeptB env rest
+
+/-- the side condition on the arguments of an invocation, decided: what an argument expanded to names disabled
+macros only, or the raw argument is kept token by token (e.g. the bare name of a function-like macro that the
+replacement list goes on to invoke: `APPLY(NEG, a)`) -/
+def argsOKB (env : List Entry) : List (List PTok) → List (List PTok) → Bool
+  | a :: as, a' :: as' => (onlyDisabledB env a' || allKeptB env a) && argsOKB env as as'
+  | _, _ => true
+
 def noFireFrom (g : String) (mi : Nat) : List Entry → Nat → Bool
   | [], _ => true
   | e :: es, j => (e.m.name != g || !e.m.isFunction || e.disabled || j == mi) && noFireFrom g mi es (j + 1)
@@ -96,7 +108,7 @@ def tameRun : Nat → List Entry → List PTok → Option (List PTok)
           match mapO (tameRun f env) args with
           | none => none
           | some args' =>
-            if args'.all (onlyDisabledB env) then
+            if argsOKB env args args' then
               match substitute e.m.body args' with
               | .error _ => none
               | .ok body' =>
@@ -186,7 +198,7 @@ def tameRunP : Nat → List Entry → List PTok → Option (List PTok)
               match mapO (tameRunP f env) args with
               | none => none
               | some args' =>
-                if args'.all (onlyDisabledB env) then
+                if argsOKB env args args' then
                   match substitute e.m.body args' with
                   | .error _ => none
                   | .ok body' =>
